@@ -805,6 +805,10 @@ fn run_in_worker(w: &WorkerCfg, name: &str, honest_hash: u64, cases: &[(usize, C
                         Some(s) => {
                             use std::os::unix::process::ExitStatusExt;
                             match (s.code(), s.signal()) {
+                                // SIGKILL is not something the code under test does to itself (allocation
+                                // failure = SIGABRT, stack overflow = SIGSEGV): the kernel's OOM killer or
+                                // an operator — environment, never a verdict
+                                (_, Some(9)) => machinery_error(&format!("worker for {name} was killed with SIGKILL (out of memory on this machine?)")),
                                 (_, Some(sig)) => format!("signal {sig}"),
                                 (Some(c), _) => format!("exit code {c}"),
                                 _ => "unknown".into(),
@@ -922,7 +926,7 @@ fn main() {
     vpcore::install_quiet_panic_hook();
     let w = WorkerCfg {
         exe: std::env::current_exe().unwrap_or_else(|e| machinery_error(&format!("current_exe: {e}"))),
-        mem_kb: ctx.opt("worker_mem_kb").and_then(|s| s.parse().ok()).unwrap_or(8 * 1024 * 1024),
+        mem_kb: ctx.opt("worker_mem_kb").and_then(|s| s.parse().ok()).unwrap_or(4 * 1024 * 1024),
         case_timeout: Duration::from_secs(ctx.opt("case_timeout_s").and_then(|s| s.parse().ok()).unwrap_or(120)),
     };
     if let Some(p) = &ctx.replay {
@@ -1007,8 +1011,9 @@ fn main() {
             if j.native_tag.starts_with("reject") {
                 nt.fetch_add(1, Ordering::Relaxed);
             }
-            if j.native_tag.starts_with("panic") {
-                *native_panics.lock().unwrap().entry(format!("{} @ {}", j.native_tag, class)).or_default() += 1;
+            if let Some(loc) = j.native_tag.strip_prefix("panic@") {
+                let (file, line) = split_loc(loc);
+                *native_panics.lock().unwrap().entry(format!("native panic at {file}:{line} <- {class}")).or_default() += 1;
             }
             let case_json = json!({"config": fx.name, "case": case.to_json(), "class": class, "judged": j.to_json()});
             match violation_key(&fx, case, &j) {
